@@ -333,7 +333,16 @@ class IncomingMessageHandler(IncomingMessageHandlerBase):
         if message.node_id not in gateway.nodes:
             raise MissingNodeError(message.node_id)
 
-        gateway.nodes[message.node_id].battery_level = round(float(message.payload))
+        try:
+            battery_level = round(float(message.payload))
+        except (ValueError, OverflowError) as err:
+            raise InvalidMessageError(err, message) from err
+        if not 0 <= battery_level <= 100:  # noqa: PLR2004
+            raise InvalidMessageError(
+                ValueError("Battery level must be between 0 and 100."), message
+            )
+
+        gateway.nodes[message.node_id].battery_level = battery_level
         return message
 
     @classmethod
